@@ -480,7 +480,7 @@ def check(pid, tier, seed, replay=None):
                 # "Close (also on the Fatal path) delivers everything still in the ring": child processes that end with Logger.Fatal
                 # (real goroutines); the exit of the process is Close's return in the recording
                 scripts += [{"id": "fatal-%s-%s-%d" % (k, m, i), "P": 1, "W": 11, "N": 64, "mode": m, "steps": [], "fatal": k}
-                            for k in ("one", "two") for m in ("waiter", "poller") for i in range(3 if thorough else 2)]
+                            for k in ("one", "two", "fan") for m in ("waiter", "poller") for i in range(3 if thorough else 2)]
         log("%s: %d scripts (%d model leads)" % (pid, len(scripts), len(leads)))
         recs = play(player, sc, scripts, shards=min(NCPU, max(1, len(scripts) // 20)))
         log("%s: played %.0fs" % (pid, time.time() - t0))
